@@ -5,6 +5,7 @@ import (
 	"os"
 	"path/filepath"
 	"strings"
+	"syscall"
 
 	"whawty-verif/harness/internal/rng"
 )
@@ -124,6 +125,10 @@ func (c *ctx) genTracedOps(kinds []string, n int, emitKinds []string) {
 		if r.Intn(5) == 0 {
 			os.RemoveAll(filepath.Join(base, ".tmp")) // the work area does not exist yet
 		}
+		otherFs := ""
+		if r.Intn(4) == 0 && op != "init" {
+			otherFs = tmpOnOtherFs(base, c.work, i) // .tmp on another file system: rename(2) cannot cross it
+		}
 		t, err := c.traceOp(cfg, base, op, user, genPw(r), r.Bool(), "", i)
 		if err != nil {
 			c.emit("law.harness.strace_runs "+op, "f")
@@ -131,6 +136,9 @@ func (c *ctx) genTracedOps(kinds []string, n int, emitKinds []string) {
 		}
 		for _, k := range emitKinds {
 			c.emit("tr."+k+" "+t.payload(), "ok")
+		}
+		if otherFs != "" {
+			os.RemoveAll(otherFs)
 		}
 		os.RemoveAll(base)
 	}
@@ -219,4 +227,24 @@ func init() {
 	suites["c09"] = suiteC09
 	suites["c15ro"] = suiteC15ro
 	suites["c03tr"] = suiteC03tr
+}
+
+// tmpOnOtherFs replaces <base>/.tmp by a symbolic link to a fresh directory on another file system
+// (tmpfs under /dev/shm), as happens when the work area is a separate mount or volume. Returns
+// the directory to remove afterwards ("" if no other file system is available).
+func tmpOnOtherFs(base, work string, seq int) string {
+	var a, b syscall.Stat_t
+	if syscall.Stat("/dev/shm", &a) != nil || syscall.Stat(work, &b) != nil || a.Dev == b.Dev {
+		return ""
+	}
+	d := fmt.Sprintf("/dev/shm/whawty-verif-%d-%d", os.Getpid(), seq)
+	if os.MkdirAll(d, 0700) != nil {
+		return ""
+	}
+	os.RemoveAll(filepath.Join(base, ".tmp"))
+	if os.Symlink(d, filepath.Join(base, ".tmp")) != nil {
+		os.RemoveAll(d)
+		return ""
+	}
+	return d
 }
